@@ -43,6 +43,25 @@ template <> struct Enc<R24> {
   static int dec(const R24 &x) { unsigned v = (unsigned)(x.a & 255); R24 e = enc(v); return (e.a == x.a && e.b == x.b && e.c == x.c) ? (int)v : -1; }
 };
 
+// element type whose k-th copy (construction or assignment) from now on throws (0 = never); moves never throw
+struct TC {
+  uint32_t v, chk;
+  static int countdown;
+  static void tick() { if (countdown > 0 && --countdown == 0) throw std::runtime_error("element copy"); }
+  TC() : v(0), chk(0) {}
+  TC(const TC &o) : v(o.v), chk(o.chk) { tick(); }
+  TC(TC &&o) noexcept : v(o.v), chk(o.chk) {}
+  TC &operator=(const TC &o) { tick(); v = o.v; chk = o.chk; return *this; }
+  TC &operator=(TC &&o) noexcept { v = o.v; chk = o.chk; return *this; }
+};
+int TC::countdown = 0;
+template <> struct Enc<TC> {
+  static TC enc(unsigned v) { v &= 255; TC r; r.v = v; r.chk = v * 2654435761u + 11u; return r; }
+  static int dec(const TC &x) { unsigned v = x.v & 255; return (x.v == v && x.chk == v * 2654435761u + 11u) ? (int)v : -1; }
+};
+template <typename T> struct CopyArm { static bool can() { return false; } static void set(int) {} };
+template <> struct CopyArm<TC> { static bool can() { return true; } static void set(int k) { TC::countdown = k; } };
+
 static std::vector<unsigned> parseList(const std::string &s)
 {
   std::vector<unsigned> out;
@@ -467,6 +486,40 @@ struct H {
       epoch[i] = ++clock;
       return "ok";
     }
+    if (op == "oa_resize_self") {
+      // the fill value is a reference to an element of the array being resized (legal: val is taken by const reference)
+      if (!idx(arg(1), NW, i)) return "bad-op";
+      if (ws[i].kind != KOA) return "pre";
+      size_t n = std::stoul(arg(2)), k = std::stoul(arg(3));
+      if (k >= ws[i].oa->size()) return "pre";
+      ws[i].oa->resize(n, (*ws[i].oa)[k]);
+      epoch[i] = ++clock;
+      return "ok";
+    }
+    if (op == "oa_resize_throw") {
+      // resize while the k-th element copy throws, k = 1, 2, ... until the resize goes through: every failed attempt
+      // must leave the array as it was (size, contents, and data() still the live storage)
+      if (!idx(arg(1), NW, i)) return "bad-op";
+      if (ws[i].kind != KOA) return "pre";
+      size_t n = std::stoul(arg(2));
+      const T val = Enc<T>::enc((unsigned)std::stoul(arg(3)));
+      if (CopyArm<T>::can()) {
+        for (int k = 1; k <= 64; k++) {
+          std::string before = obs(i);
+          bool threw = false;
+          CopyArm<T>::set(k);
+          try { ws[i].oa->resize(n, val); } catch (const std::runtime_error &) { threw = true; }
+          CopyArm<T>::set(0);
+          if (!threw) { epoch[i] = ++clock; return "ok"; }
+          std::string after = obs(i);
+          if (after != before) return "changed by the resize that threw at copy " + std::to_string(k) + ": " + after;
+        }
+        return "still throwing";
+      }
+      ws[i].oa->resize(n, val);
+      epoch[i] = ++clock;
+      return "ok";
+    }
     if (op == "copy") {  // construct slot i as a copy of / by moving from slot j
       if (!idx(arg(1), NW, i) || !idx(arg(2), NW, j)) return "bad-op";
       Slot &s = ws[j];
@@ -519,5 +572,6 @@ int main(int argc, char **argv)
   if (mode == "u8") return runTyped<uint8_t>();
   if (mode == "u32") return runTyped<uint32_t>();
   if (mode == "r24") return runTyped<R24>();
+  if (mode == "tc") return runTyped<TC>();
   return 2;
 }
